@@ -554,6 +554,44 @@ def run(tier: str, seed: int) -> int:
                        f"gives {want!r}", {"story_source": src})
         chk.count(("mlstmt", src), True)
 
+    # a ~ statement that rebinds a variable to a value EQUAL to the old one but of another type (1 -> True, 10 -> 10.0,
+    # 0 -> False), and an @for whose body extends the very list it iterates (Python visits the added items): reference =
+    # Python's own execution of the same statements
+    stats["python_reference_cases"] = 0
+    for k in range(16 if tier == "quick" else 160):
+        r = random.Random(rng.randrange(10 ** 9))
+        v0 = r.choice([0, 1, 10, 2])
+        rebind = r.choice(["v = v == %d" % v0 if v0 in (0, 1) else "v = v / 1", "v = v * 1.0", "v = bool(v)" if v0 in (0, 1) else "v = float(v)",
+                           "v = v + 0.0"])
+        host = r.choice(["top", "if", "for"])
+        st_lines = {"top": [f"~ {rebind}"], "if": ["@if True:", f"    ~ {rebind}", "@endif"],
+                    "for": ["@for z in [1]:", f"    ~ {rebind}", "@endfor"]}[host]
+        env = {"v": v0}
+        exec(rebind, {}, env)
+        q0 = r.sample([1, 2, 3, 4], r.randint(1, 3))
+        grow = r.choice(["q.append(it + 10)", "q.extend([it + 10])"])
+        limit = r.randint(3, 6)
+        env2 = {"q": list(q0), "seen": []}
+        exec(f"for it in q:\n    seen.append(it)\n    if len(q) < {limit}:\n        {grow}", {}, env2)
+        src = "\n".join([":: Start", f"~ v = {v0}", f"~ q = {q0}", "~ seen = []", "Start", "+ [Go] -> T", "", ":: T"] + st_lines +
+                        ["Typed {v}", "@for it in q:", "    ~ seen.append(it)", f"    @if len(q) < {limit}:", f"        ~ {grow}",
+                         "    @endif", "@endfor", "Seen {seen} {q}", "+ [Back] -> Start"])
+        want = [f"Typed {env['v']}", f"Seen {env2['seen']} {env2['q']}"]
+        with C.quiet():
+            try:
+                st = BardCompiler().compile_string(src)
+                recs, _ = R.run_history(st, [("choose", 0)])
+                txt = recs[1]["view"]["raw_content"] if len(recs) > 1 and recs[1]["view"] else repr(recs[-1]["obs"])
+            except Exception as e:  # noqa
+                txt = f"<{type(e).__name__}: {str(e)[:80]}>"
+        got = [l for l in txt.split("\n") if l.startswith("Typed ") or l.startswith("Seen ")]
+        stats["python_reference_cases"] += 1
+        chk.count(("pyref", src), True)
+        if got != want:
+            chk.report("statement-or-loop-departs-from-python",
+                       f"rebinding ({rebind!r} in {host}) / a loop extending its collection shows {got}; Python gives {want}",
+                       {"story_source": src})
+
     try:
         for i in range(n_cases):
             sub = rng.randrange(10 ** 9)
